@@ -51,6 +51,23 @@ def gen_rt(base, name, opts):
             for d_ in ("%s k%d_val(%s a)" % (sp, i, sp), "void k%d_ptr(%s *a +intent(inout))" % (i, sp), "%s k%d_res(void)" % (sp, i)):
                 decls.append({"decl": d_})
                 protos.append(d_.split(" +")[0].rstrip(")") + (")" if "+" in d_ else ")") + ";")
+        # structs: every member kind written inline, and the declarations form with options of their own on members
+        # (a member is part of the memory layout whatever is selected for it)
+        mtypes = ["short", "unsigned long long int", "float", "uint8_t", "double", "int32_t", "long int", "unsigned short", "size_t"]
+        inline = "struct Rec1 { " + " ".join("%s f%d;" % (t, i) for i, t in enumerate(mtypes)) + " int arr[3]; char name[8]; double *ptr; }"
+        decls.append({"decl": inline})
+        rec2 = [{"decl": "int count"}, {"decl": "double weight", "options": {"wrap_python": False}},
+                {"decl": "long total", "options": {"wrap_fortran": False}}, {"decl": "float ratio", "options": {"wrap_c": False}},
+                {"decl": "unsigned int flags", "options": {"wrap_lua": False, "wrap_fortran": True}}, {"decl": "short tail"}]
+        decls.append({"decl": "struct Rec2", "declarations": rec2})
+        decls.append({"decl": "struct Rec3", "options": {"wrap_python": False},
+                      "declarations": [{"decl": "double x"}, {"decl": "int n", "options": {"wrap_fortran": False}}, {"decl": "double y"}]})
+        decls += [{"decl": "void use_rec1(Rec1 *r)"}, {"decl": "void use_rec2(Rec2 *r)"}, {"decl": "Rec3 make_rec3(void)"}]
+        protos += ["struct Rec1 { " + " ".join("%s f%d;" % (t, i) for i, t in enumerate(mtypes)) + " int arr[3]; char name[8]; double *ptr; };",
+                   "typedef struct Rec1 Rec1;",
+                   "struct Rec2 { int count; double weight; long total; float ratio; unsigned int flags; short tail; };", "typedef struct Rec2 Rec2;",
+                   "struct Rec3 { double x; int n; double y; };", "typedef struct Rec3 Rec3;",
+                   "void use_rec1(Rec1 *r);", "void use_rec2(Rec2 *r);", "Rec3 make_rec3(void);"]
         y = {"library": "kinds", "language": "c", "cxx_header": "kinds.h",
              "options": dict({"debug": True, "wrap_fortran": True, "wrap_python": False, "wrap_lua": False}, **opts),
              "declarations": decls}
